@@ -436,6 +436,8 @@ class Ctx:
                 return self.neg(self.of_term(args[0]))
             if n == 'sqrt':
                 return self.sqrt(self.of_term(args[0]))
+            if n in ('floor', 'round', 'ceil', 'trunc', 'round_ties_even') and _int_valued(args[0]):
+                return self.of_term(args[0])   # rounding an integer-valued expression is the identity
             if n in ('exp', 'ln', 'abs', 'floor', 'round', 'f2i', 'min', 'max', 'fmin', 'fmax', 'len', 'powi', 'index', 'ceil', 'trunc', 'signum', 'powf', 'round_ties_even'):
                 return self.rf(p_atom((n,) + tuple(self.arg_key(a) for a in args)))
             raise NotReal('operation %s' % n)
@@ -455,6 +457,22 @@ class Ctx:
 
     def term_equal(self, a, b):
         return self.equal(self.of_term(a), self.of_term(b))
+
+
+def _int_valued(t):
+    """Syntactically integer-valued: int->float embeddings, integer constants, + - * of such."""
+    if t[0] == 'int':
+        return True
+    if t[0] == 'flt':
+        return not isinstance(t[1], str) and t[1].denominator == 1
+    if t[0] == 'op':
+        if t[1] == 'i2f':
+            return True
+        if t[1] in ('f2f',):
+            return _int_valued(t[2][0])
+        if t[1] in ('add', 'sub', 'mul') and len(t[2]) == 2:
+            return _int_valued(t[2][0]) and _int_valued(t[2][1])
+    return False
 
 
 def _frac_sqrt(c):
@@ -539,6 +557,16 @@ def _poly_sign(ctx, p, ranges):
             if a[0] == 'sqrt':
                 strict = _poly_sign(ctx, dict(a[1]), ranges) == '+'
             r = (Fraction(0), None, strict, True)
+        if r is None and isinstance(a, tuple) and len(a) == 2 and a[0] in ('round', 'floor', 'ceil', 'round_ties_even', 'trunc') and isinstance(a[1], tuple) and a[1] and a[1][0] == 'rf':
+            # integer-valued rounding of x: round(x) >= 1 when x >= 1/2, floor/trunc(x) >= 1 when x >= 1, ceil(x) >= 1 when x > 0
+            inner = RF(dict(a[1][1]), dict(a[1][2]))
+            thr = {'round': Fraction(1, 2), 'round_ties_even': Fraction(1, 2) + Fraction(1, 10 ** 9), 'floor': Fraction(1), 'trunc': Fraction(1), 'ceil': Fraction(0)}[a[0]]
+            d = RF(p_sub(inner.num, p_mul_raw(p_const(thr), inner.den)), dict(inner.fac))
+            sgn = decide_sign(ctx, d, ranges)
+            if sgn == '+' or (sgn in ('0+', '0') and a[0] != 'ceil'):
+                r = (Fraction(1), None, False, True)
+            elif decide_sign(ctx, inner, ranges) in ('+', '0+', '0'):
+                r = (Fraction(0), None, False, True)
         if r is None:
             # unconstrained atom: sign only decidable if it appears with even exponents only
             choices.append([('free', a)])
